@@ -44,8 +44,8 @@ func (Engine) Meta() simrt.Meta {
 			"inputs are valid UTF-8 without NUL (the reader's documented sentinel); token lexemes stay far below the buffer size",
 		},
 		RealCode:     []string{"internal/generate/golang (Generate, templates)", "emitted package compiled by the Go toolchain: lexer.go, input.go, stack.go, types.go, errors.go", "Spec.DFA / spec.Parse (to obtain the automaton)"},
-		Stubs:        []string{"io.Reader of the emitted lexer (block reader in the driver: regular-file semantics, end of input placed by the harness)"},
-		FaultKinds:   []string{"eof_right_after_token", "eof_inside_token", "boundary_alignments", "multibyte_straddles_boundary", "unmatched_blank"},
+		Stubs:        []string{"io.Reader of the emitted lexer (simulated reader in the driver: regular-file semantics, or a benign delivery schedule - short chunks, zero-length reads, last chunk together with io.EOF; end of input placed by the harness)"},
+		FaultKinds:   []string{"eof_right_after_token", "eof_inside_token", "boundary_alignments", "multibyte_straddles_boundary", "unmatched_blank", "delivery_short_reads", "delivery_zero_length_reads", "delivery_data_with_eof"},
 		CaseTimeout:  900 * time.Second,
 		ShrinkBudget: 12,
 	}
@@ -295,8 +295,46 @@ func (a *automaton) walk(t *simrt.Tape, nearMiss bool) string {
 // ---- batch: emit, compile, run -----------------------------------------------------------------
 
 type job struct {
-	Pkg   string `json:"pkg"`
-	Input string `json:"input"` // base64
+	Pkg   string    `json:"pkg"`
+	Input string    `json:"input"` // base64
+	D     *delivery `json:"d,omitempty"`
+}
+
+// delivery is a benign delivery schedule of the simulated reader: the same bytes, handed out in
+// short chunks, with (0,nil) reads in between, the last chunk together with io.EOF - everything the
+// io.Reader contract allows a pipe, a socket or a decompressor to do. nil is a regular file.
+type delivery struct {
+	Seed     uint64 `json:"s"`
+	MaxChunk int    `json:"m"`           // > 0: every read returns 1..m bytes
+	Zero     []int  `json:"z,omitempty"` // indices of Read calls that return (0, nil)
+	DataEOF  bool   `json:"e,omitempty"` // the last chunk comes together with io.EOF
+}
+
+func (d *delivery) String() string {
+	if d == nil {
+		return "regular file"
+	}
+	return fmt.Sprintf("chunks of 1..%d bytes (seed %d), zero-length reads at calls %v, last chunk with io.EOF=%v", d.MaxChunk, d.Seed, d.Zero, d.DataEOF)
+}
+
+func drawDelivery(t *simrt.Tape, B int) *delivery {
+	d := &delivery{Seed: uint64(t.Draw(1 << 30))}
+	switch t.Draw(4) {
+	case 0:
+		d.MaxChunk = []int{1, 2, 3, 7}[t.Draw(4)]
+	case 1:
+		d.MaxChunk = []int{64, 100, 1000, B / 2}[t.Draw(4)]
+	case 2:
+		d.MaxChunk = []int{B - 1, B, B + 1, 3 * B}[t.Draw(4)]
+	}
+	for n := t.Draw(4); n > 0; n-- {
+		d.Zero = append(d.Zero, t.Draw(12))
+	}
+	d.DataEOF = t.Chance(1, 2)
+	if d.MaxChunk == 0 && len(d.Zero) == 0 && !d.DataEOF {
+		d.MaxChunk = 5
+	}
+	return d
 }
 
 type drvTok struct {
@@ -340,21 +378,62 @@ type out struct {
 	Reads int    ` + "`json:\"reads\"`" + `
 }
 
-// blockReader is the simulated disk: a regular file - every Read fills p until the data runs out,
-// then (0, io.EOF).
+// blockReader is the simulated disk. Without a delivery schedule it is a regular file - every Read
+// fills p until the data runs out, then (0, io.EOF). With one it hands out the same bytes the way a
+// pipe or a socket may: short chunks, zero-length reads, the last chunk together with io.EOF.
+type delivery struct {
+	Seed     uint64 ` + "`json:\"s\"`" + `
+	MaxChunk int    ` + "`json:\"m\"`" + `
+	Zero     []int  ` + "`json:\"z\"`" + `
+	DataEOF  bool   ` + "`json:\"e\"`" + `
+}
+
 type blockReader struct {
 	data  []byte
 	off   int
 	reads int
+	d     *delivery
+	rng   uint64
+}
+
+func (r *blockReader) next() uint64 {
+	r.rng += 0x9e3779b97f4a7c15
+	z := r.rng
+	z = (z ^ (z >> 30)) * 0xbf58476d1ce4e5b9
+	z = (z ^ (z >> 27)) * 0x94d049bb133111eb
+	return z ^ (z >> 31)
 }
 
 func (r *blockReader) Read(p []byte) (int, error) {
+	call := r.reads
 	r.reads++
+	if r.d != nil {
+		for _, z := range r.d.Zero {
+			if z == call {
+				return 0, nil
+			}
+		}
+	}
+	if len(p) == 0 {
+		return 0, nil
+	}
 	if r.off >= len(r.data) {
 		return 0, io.EOF
 	}
-	n := copy(p, r.data[r.off:])
+	n := len(p)
+	if rest := len(r.data) - r.off; n > rest {
+		n = rest
+	}
+	if r.d != nil && r.d.MaxChunk > 0 && n > 1 {
+		if k := 1 + int(r.next()%%uint64(r.d.MaxChunk)); k < n {
+			n = k
+		}
+	}
+	copy(p, r.data[r.off:r.off+n])
 	r.off += n
+	if r.d != nil && r.d.DataEOF && r.off == len(r.data) {
+		return n, io.EOF
+	}
 	return n, nil
 }
 
@@ -369,13 +448,17 @@ func main() {
 		var j struct {
 			Pkg   string ` + "`json:\"pkg\"`" + `
 			Input string ` + "`json:\"input\"`" + `
+			D     *delivery ` + "`json:\"d\"`" + `
 		}
 		if err := json.Unmarshal(sc.Bytes(), &j); err != nil {
 			fmt.Fprintln(os.Stderr, err)
 			os.Exit(2)
 		}
 		data, _ := base64.StdEncoding.DecodeString(j.Input)
-		rd := &blockReader{data: data}
+		rd := &blockReader{data: data, d: j.D}
+		if j.D != nil {
+			rd.rng = j.D.Seed
+		}
 		var o out
 		func() {
 			defer func() {
@@ -548,13 +631,31 @@ func (e Engine) Run(t *simrt.Tape, c simrt.Case, x *simrt.Ctx) *simrt.Result {
 		input []byte
 		note  string
 		key   string
+		d     *delivery
 	}
 	var jobs []expect
+	// every fourth input is tokenised a second time under a benign delivery schedule of the reader
+	// (same bytes, other chunking): the token stream is a function of the text, not of how read(2)
+	// happens to slice it
 	add := func(em *emitted, in []byte, note, key string) {
 		if !utf8.Valid(in) || bytes.IndexByte(in, 0) >= 0 {
 			return
 		}
-		jobs = append(jobs, expect{em, in, note, key})
+		jobs = append(jobs, expect{em, in, note, key, nil})
+		if t.Chance(1, 4) {
+			d := drawDelivery(t, em.B)
+			jobs = append(jobs, expect{em, in, note + "; delivered in " + d.String(), key + "+delivery", d})
+			res.Count("delivery_schedules", 1)
+			if d.MaxChunk > 0 {
+				res.Count("delivery_short_reads", 1)
+			}
+			if len(d.Zero) > 0 {
+				res.Count("delivery_zero_length_reads", 1)
+			}
+			if d.DataEOF {
+				res.Count("delivery_data_with_eof", 1)
+			}
+		}
 	}
 	nInputs := 10
 	if x.Tier == "thorough" {
@@ -732,7 +833,7 @@ func (e Engine) Run(t *simrt.Tape, c simrt.Case, x *simrt.Ctx) *simrt.Result {
 	}
 	for i, j := range jobs {
 		p := parts[i%nProc]
-		b, _ := json.Marshal(job{Pkg: j.em.pkg, Input: base64.StdEncoding.EncodeToString(j.input)})
+		b, _ := json.Marshal(job{Pkg: j.em.pkg, Input: base64.StdEncoding.EncodeToString(j.input), D: j.d})
 		p.in.Write(b)
 		p.in.WriteByte('\n')
 		p.idx = append(p.idx, i)
@@ -787,10 +888,13 @@ func (e Engine) Run(t *simrt.Tape, c simrt.Case, x *simrt.Ctx) *simrt.Result {
 		}
 		if v := compare(j.em, j.input, want, wantErr, o); v != "" {
 			class := strings.SplitN(v, ":", 2)[0]
+			if j.d != nil {
+				class += "[delivery]"
+			}
 			x.Tracef("specification:\n%s", j.em.text)
 			x.Tracef("input (%d bytes, %s): head %q … tail %q", len(j.input), j.note, clipB(j.input, 60), tailB(j.input, 120))
 			res.Violation = &simrt.Violation{Class: class, Message: fmt.Sprintf("%s\n  %s; input of %d bytes ending in %q\n  specification: %s", v, j.note, len(j.input), tailB(j.input, 80), strings.ReplaceAll(j.em.text, "\n", " ")),
-				Detail: map[string]any{"input_b64": base64.StdEncoding.EncodeToString(j.input), "specification": j.em.text}}
+				Detail: map[string]any{"input_b64": base64.StdEncoding.EncodeToString(j.input), "specification": j.em.text, "delivery": j.d}}
 			return res
 		}
 	}
